@@ -21,7 +21,7 @@ ID = "C08"
 LEVEL = "exploration"
 TECHNIQUE = ("generated edit/evaluate histories (Hypothesis) vs Euler reference on current definitions; generated and "
              "preemption-bounded-exhaustive thread schedules under a deterministic line-level scheduler")
-RULE = ("part A: cases = (model, list of ops in {eval element at t, eval all, set aux equation, set stock initial value, set "
+RULE = ("part A: cases = (model, list of ops in {eval element at t [through Element.__call__, Model.equation or Model.memoize], eval all, set aux equation, set stock initial value, set "
         "constant, reset cache, run twice, run with equation subset/order}); every evaluation must equal the reference for the "
         "current definitions; non-trivial = an edit to X after a dependent Y != X was evaluated. part B: cases = (equation "
         "list, schedule) where a schedule is a choice list or a set of <= 2 preemption points over the source lines of "
@@ -134,7 +134,13 @@ def check_history(case):
         try:
             if kind == "eval":
                 nm, i = op[1], op[2] % len(grid)
-                got = elems[nm](grid[i])
+                route = op[3] if len(op) > 3 else "call"
+                if route == "equation":  # what the scenario runners use
+                    got = model.equation(elems[nm].name, grid[i])
+                elif route == "memoize":  # what Element.plot uses
+                    got = model.memoize(elems[nm].name, grid[i])
+                else:
+                    got = elems[nm](grid[i])
                 evaluated.add(nm)
                 if not check(nm, i, got, r, opno, op):
                     break
@@ -269,7 +275,7 @@ def history_strategy(max_n=8):
         for _ in range(nops):
             k = draw(st.sampled_from(["eval", "eval", "eval_all", "set_eq", "set_init", "set_const", "reset", "runs", "define_late"]))
             if k == "eval":
-                ops.append(["eval", draw(st.sampled_from(names)), draw(st.integers(0, max_n))])
+                ops.append(["eval", draw(st.sampled_from(names)), draw(st.integers(0, max_n)), draw(st.sampled_from(["call", "call", "equation", "memoize"]))])
             elif k == "eval_all":
                 ops.append(["eval_all", draw(st.sampled_from(["fwd", "rev"]))])
             elif k == "set_eq":
